@@ -14,10 +14,10 @@ META = dict(
     property="C26",
     level="exploration",
     technique="hostile request paths served by static.File over Site/HTTPChannel under a filesystem audit hook + secret markers; hostile names into FilePath.child/preauthChild/descendant checked lexically; complete small scope of names built from 11 atoms",
-    level_text="Tree T/root/{a.txt,.hidden,sub/{b.txt,deep/c.txt}} with T/secret, T/root.secret, T/rootsib/{secret,x} beside it. (1) Requests whose target is built from a hostile alphabet (.., ., %2e, %2f, %5c, %00, overlong UTF-8, non-UTF-8, double encoding, sibling names, absolute paths) are served by static.File (plain, ignoredExts=['*'], ignoredExts=['.txt']) through the real Site/HTTPChannel; a sys.addaudithook records every open/listdir/scandir/mkdir/remove/rename/... and each recorded path must resolve inside realpath(root) (interpreter/library source files excepted); no response may contain the marker of a file outside root; a 200 file body must be the content of a file under root. (2) child(n) must return root or a direct child or raise InsecurePath; preauthChild(n) and descendant(segs) must return a path inside root's subtree or raise InsecurePath; str and bytes modes for root and name. All names of <= 4 atoms over 11 atoms are enumerated; longer ones are sampled.",
+    level_text="Tree T/root/{a.txt,.hidden,sub/{b.txt,deep/c.txt}} with T/secret, T/root.secret, T/rootsib/{secret,x} beside it. (1) Requests whose target is built from a hostile alphabet (.., ., %2e, %2f, %5c, %00, overlong UTF-8, non-UTF-8, double encoding, sibling names, absolute paths) are served by static.File (ignoredExts none, ['*'], ['.txt',''], ['.secret']; document root an existing directory, a path that does not exist, or a regular file, each with prefix-sharing siblings <root>.secret/<root>.txt/<root>.d beside it) through the real Site/HTTPChannel; a sys.addaudithook records every open/listdir/scandir/mkdir/remove/rename/... and each recorded path must resolve inside realpath(root) (interpreter/library source files excepted); no response may contain the marker of a file outside root; a 200 file body must be the content of a file under root. (2) child(n) must return root or a direct child or raise InsecurePath; preauthChild(n) and descendant(segs) must return a path inside root's subtree or raise InsecurePath; str and bytes modes for root and name. All names of <= 4 atoms over 11 atoms are enumerated; longer ones are sampled.",
     level_note="Containment of returned FilePaths is lexical (normpath of .path against root and root+sep), as the statement excludes symbolic links and no links are created. The audit sees the Python-level events open/os.listdir/os.scandir/os.mkdir/os.rmdir/os.remove/os.rename/os.chmod/os.truncate/os.symlink/os.link; stat-type probes are not audited. 5xx answers and logged errors are counted, not asserted (the statement is about escape, not about failure). Linux path semantics only.",
     design_ref="§5 C26",
-    rule="case = fp:(op, root mode, name mode, atoms | segments) or http:(variant, target bytes). non-trivial = the (decoded) name/target contains a '..' component, a separator, backslash or NUL inside a segment, an absolute path, or a sibling's name; distinct by the whole case.",
+    rule="case = fp:(op, root mode, name mode, atoms | segments) or http:(ignoredExts variant, docroot kind, target bytes). non-trivial = the (decoded) name/target contains a '..' component, a separator, backslash or NUL inside a segment, an absolute path, or a sibling's name; distinct by the whole case.",
 )
 
 FIXED_DATE = b"Thu, 01 Jan 1970 00:00:00 GMT"
@@ -26,13 +26,21 @@ SECRETS = {
     "root.secret": b"OUTSIDE-MARKER-prefix-file-91bc",
     "rootsib/secret": b"OUTSIDE-MARKER-sibling-secret-55d0",
     "rootsib/x": b"OUTSIDE-MARKER-sibling-x-0e21",
+    # beside a document root that does not exist (T/ghost) and one that is a regular file (T/filedoc)
+    "ghost.secret": b"OUTSIDE-MARKER-ghost-secret-a4a4",
+    "ghost.txt": b"OUTSIDE-MARKER-ghost-txt-b5b5",
+    "ghost.d/inner": b"OUTSIDE-MARKER-ghost-d-inner-c6c6",
+    "filedoc.secret": b"OUTSIDE-MARKER-filedoc-secret-d7d7",
+    "filedoc.txt": b"OUTSIDE-MARKER-filedoc-txt-e8e8",
 }
+DOCROOTS = {"dir": "root", "missing": "ghost", "file": "filedoc"}     # what static.File is pointed at
 PUBLIC = {
     "root/a.txt": b"public a.txt 3b1f",
     "root/.hidden": b"public hidden 88aa",
     "root/sub/b.txt": b"public sub/b.txt c2d4",
     "root/sub/deep/c.txt": b"public sub/deep/c.txt 6e6e",
     "root/name with space": b"public spaced 1212",
+    "filedoc": b"public filedoc 7a7a",
 }
 
 # --------------------------------------------------------------------------
@@ -227,7 +235,7 @@ def _owned():
         _producer_helpers.cooperate, server.datetimeToString = saved
 
 
-VARIANTS = {"plain": (), "star": ("*",), "txt": (".txt", "")}
+VARIANTS = {"plain": (), "star": ("*",), "txt": (".txt", ""), "secret": (".secret",)}
 _PCT = re.compile(rb"%([0-9a-fA-F]{2})")
 
 
@@ -243,7 +251,9 @@ def run_http(ctx, case, T):
     from twisted.internet.testing import StringTransport
     from twisted.python.failure import Failure
     from twisted.web import server, static
-    rootpath = os.path.join(T, "root")
+    docroot = case.get("docroot", "dir")
+    rootrel = DOCROOTS[docroot]
+    rootpath = os.path.join(T, rootrel)
     target = case["target"]
     with _owned() as queue, harness.captured_log() as events:
         site = server.Site(static.File(rootpath, ignoredExts=VARIANTS[case["variant"]]),
@@ -263,7 +273,7 @@ def run_http(ctx, case, T):
             queue.pop(0)()
             n += 1
         errors = harness.log_errors(events)
-    detail = f"GET /{target.decode('latin-1')} (variant {case['variant']}): "
+    detail = f"GET /{target.decode('latin-1')} (ignoredExts {VARIANTS[case['variant']]!r}, docroot {rootrel} = {docroot}): "
     bad = outside_accesses(log, rootpath)
     if bad:
         ev, p = bad[0]
@@ -280,11 +290,14 @@ def run_http(ctx, case, T):
     if code == 200:
         if b"<title>Directory listing for" in body:
             ctx.count("http 200 listing")      # which directory was listed is checked through the audit log
-        elif body in PUBLIC.values():
+        elif body in [v for k, v in PUBLIC.items() if k == rootrel or k.startswith(rootrel + "/")]:
             ctx.count("http 200 file")
         else:
             ctx.violation("http-200-unknown-content", case, detail + f"200 with a body that is no file under root: {body[:80]!r}")
     ctx.count(f"http status {code}")
+    ctx.count("http docroot=" + docroot)
+    if docroot != "dir" and case["variant"] != "plain" and segs and segs[0] in (b".", b""):
+        ctx.count("class: docroot that is no directory + ignoredExts + first segment '.' or empty")
     if errors:
         ctx.count("http logged error (not asserted)")
     opened = [p for ev, p in log if ev == "open"]
@@ -293,7 +306,7 @@ def run_http(ctx, case, T):
     hostile = any(s in (b"..",) or b"/" in s or b"\\" in s or b"\x00" in s or b"secret" in s or b"rootsib" in s
                   for s in segs) or b"%25" in target
     if hostile:
-        ctx.nontrivial(("http", case["variant"], target))
+        ctx.nontrivial(("http", case["variant"], docroot, target))
         ctx.count("nontrivial http")
         if len(ctx.samples) < 5 and len(target) > 8 and len(target) % 3 == 0:
             ctx.sample(case)
@@ -351,7 +364,8 @@ def _enum_fp(ctx, shard):
 
 HTTP_ATOMS = [b"..", b".", b"%2e", b"%2E%2e", b".%2e", b"%2f", b"%2F", b"%5c", b"\\", b"%00", b"%ff", b"%c0%af", b"%c0%ae",
               b"%e2%80%ae", b"%252e%252e", b"%252f", b"a.txt", b"a", b"sub", b"deep", b"b.txt", b"c.txt", b"secret", b"rootsib",
-              b"root", b"root.secret", b".secret", b"sib", b"x", b".hidden", b"name%20with%20space", b"~", b":", b"+", b"*", b";",
+              b"root", b"root.secret", b".secret", b"sib", b"x", b"ghost", b"ghost.secret", b"ghost.txt", b"ghost.d", b"filedoc",
+              b"filedoc.secret", b"inner", b".txt", b"%2e/", b"./", b".hidden", b"name%20with%20space", b"~", b":", b"+", b"*", b";",
               b"%2e%2e%2f", b"..%2f", b"..%5c", b"%2e%2e%5c", b"a" * 300, b"...", b"%", b"%2", b"%zz", b"\xc0\xaf", b"\xff"]
 
 
@@ -368,7 +382,8 @@ def _http_case(draw):
     target = sep.join(segs)
     if draw(st.integers(0, 9)) == 0:
         target += b"?" + draw(st.sampled_from([b"", b"x=../../secret", b"/../secret"]))
-    return dict(kind="http", variant=draw(st.sampled_from(["plain", "plain", "star", "txt"])), target=target)
+    return dict(kind="http", variant=draw(st.sampled_from(["plain", "plain", "star", "txt", "secret"])),
+                docroot=draw(st.sampled_from(["dir", "dir", "dir", "missing", "file"])), target=target)
 
 
 @st.composite
@@ -390,10 +405,12 @@ def _http_fixed():
          b"../root.secret", b"..%5csecret", b"..\\secret", b"....//secret", b"..;/secret", b"%c0%ae%c0%ae/secret",
          b"%252e%252e/secret", b"a.txt/../../secret", b"a.txt%00/../../secret", b"secret", b"rootsib/secret", b"/secret",
          b"//secret", b"./a.txt", b"sub/./b.txt", b"sub//b.txt", b"%00", b"a.txt%00", b"%ff", b"sub/deep/c.txt", b".hidden",
-         b"name%20with%20space", b"a", b"sub/b", b"."]
-    for v in VARIANTS:
-        for t in T:
-            yield dict(kind="http", variant=v, target=t)
+         b"name%20with%20space", b"a", b"sub/b", b".", b"%2e", b"./", b"%2e/", b"./secret", b"%2e/inner", b"./.", b"././secret",
+         b"../ghost.secret", b"../filedoc.secret", b"ghost.secret", b".secret", b".txt"]
+    for docroot in DOCROOTS:
+        for v in VARIANTS:
+            for t in T:
+                yield dict(kind="http", variant=v, docroot=docroot, target=t)
 
 
 def _hyp_shard(sub, i):
